@@ -19,10 +19,22 @@ theorem run_def (f : S → GoM (A × S)) :
   funext s0
   simp [StM.run, StM.flatMap, StM.get, StM.put, StM.pure]
 
-/-- `Run` never fails and reports exactly the state `f` returned -/
+/-- HYPOTHESIS-FREE (audit finding 14): for EVERY `f` (it may log and panic): `Run(f)` from `s` runs `f s` — once,
+    with all its effects —, never fails, and reports exactly the value and the state `f` returned -/
+theorem run_eq (f : S → GoM (A × S)) (s : S) :
+    StM.run f s = (f s >>= fun x => Pure.pure (.success x.1, x.2)) := by
+  simp only [StM.run]
+
+/-- GENERAL form of `run_state`: `f` may have effects `act` before it returns; they are kept -/
+theorem run_state_eff {X : Type} (f : S → GoM (A × S)) (s ns : S) (a : A) (act : GoM X)
+    (h : f s = act >>= fun _ => Pure.pure (a, ns)) :
+    StM.run f s = act >>= fun _ => Pure.pure (.success a, ns) := by
+  simp [StM.run, h]
+
+/-- `Run` never fails and reports exactly the state `f` returned (the effect-free instance of `run_state_eff`) -/
 theorem run_state (f : S → GoM (A × S)) (s ns : S) (a : A) (h : f s = Pure.pure (a, ns)) :
     StM.run f s = Pure.pure (.success a, ns) := by
-  simp [StM.run, h]
+  simpa using run_state_eff f s ns a (Pure.pure ()) (by simpa using h)
 
 /-- `Merge(fss, fsa) = ModifyS(fss, fsa)`: the value function runs FIRST, then the state function, both on the
     incoming state -/
@@ -51,26 +63,45 @@ theorem apTry_def (st : StM.StT S (A → GoM B)) (a : Try A) :
     | failure e => cases e <;> simp [ap, map, lift, TryM.ops, TryM.flatMap, tryMap, StM.fromTry, Try.failedGet]
   | failure e => cases e <;> simp [ap, TryM.ops, TryM.flatMap, Try.failedGet]
 
+/-- GENERAL form (audit finding 14): the function side may have effects `act` (a log, other callbacks) before it
+    returns the function; ORDER: those effects, then the applied function's; the state is the function side's -/
+theorem apTry_success_eff {X : Type} (st : StM.StT S (A → GoM B)) (s ns : S) (f : A → GoM B) (v : A) (act : GoM X)
+    (h : st s = act >>= fun _ => Pure.pure (.success f, ns)) :
+    StM.apTry st (.success v) s = act >>= fun _ => (do let b ← f v; Pure.pure (.success b, ns)) := by
+  simp [StM.apTry, h, ap, map, lift, TryM.ops, TryM.flatMap]
+
 /-- both sides succeed: the function is applied once, AFTER the function side ran, and the state is the function side's -/
 theorem apTry_success (st : StM.StT S (A → GoM B)) (s ns : S) (f : A → GoM B) (v : A)
     (h : st s = Pure.pure (.success f, ns)) :
     StM.apTry st (.success v) s = (do let b ← f v; Pure.pure (.success b, ns)) := by
-  simp [StM.apTry, h, ap, map, lift, TryM.ops, TryM.flatMap]
+  simpa using apTry_success_eff st s ns f v (Pure.pure ()) (by simpa using h)
+
+/-- GENERAL form: the function side fails after effects `act`: they are kept, and the state reported is the state at
+    the point of failure (`ns`, not the initial `s`) -/
+theorem apTry_failure_state_eff {X : Type} (st : StM.StT S (A → GoM B)) (a : Try A) (s ns : S) (e : Err)
+    (he : e ≠ .nil) (act : GoM X) (h : st s = act >>= fun _ => Pure.pure (.failure e, ns)) :
+    StM.apTry st a s = act >>= fun _ => Pure.pure (.failure e, ns) := by
+  simp [StM.apTry, h, ap, TryM.ops, TryM.flatMap, he]
 
 /-- the function side fails: the state reported is the state at the point of failure (`ns`, not the initial `s`) -/
 theorem apTry_failure_state (st : StM.StT S (A → GoM B)) (a : Try A) (s ns : S) (e : Err) (he : e ≠ .nil)
     (h : st s = Pure.pure (.failure e, ns)) :
     StM.apTry st a s = Pure.pure (.failure e, ns) := by
-  simp [StM.apTry, h, ap, TryM.ops, TryM.flatMap, he]
+  simpa using apTry_failure_state_eff st a s ns e he (Pure.pure ()) (by simpa using h)
 
 /-- `ApOption(st, a) = ApTry(st, try.FromOption(a))` -/
 theorem apOption_def (st : StM.StT S (A → GoM B)) (a : Option A) :
     StM.apOption st a = StM.apTry st (TryM.fromOption a) := rfl
 
+theorem apOption_some_eff {X : Type} (st : StM.StT S (A → GoM B)) (s ns : S) (f : A → GoM B) (v : A) (act : GoM X)
+    (h : st s = act >>= fun _ => Pure.pure (.success f, ns)) :
+    StM.apOption st (some v) s = act >>= fun _ => (do let b ← f v; Pure.pure (.success b, ns)) := by
+  simp [apOption_def, TryM.fromOption, apTry_success_eff st s ns f v act h]
+
 theorem apOption_some (st : StM.StT S (A → GoM B)) (s ns : S) (f : A → GoM B) (v : A)
     (h : st s = Pure.pure (.success f, ns)) :
     StM.apOption st (some v) s = (do let b ← f v; Pure.pure (.success b, ns)) := by
-  simp [apOption_def, TryM.fromOption, apTry_success st s ns f v h]
+  simpa using apOption_some_eff st s ns f v (Pure.pure ()) (by simpa using h)
 
 -- non-vacuity: a function side that changes the state and succeeds / fails
 example : ∃ (st : StM.StT Nat (Nat → GoM Nat)) (f : Nat → GoM Nat), st 1 = Pure.pure (.success f, 5) :=
@@ -80,5 +111,12 @@ example : ∃ (st : StM.StT Nat (Nat → GoM Nat)), st 1 = Pure.pure (.failure (
 example : StM.apTry (fun (_ : Nat) => (Pure.pure (.success (fun (x : Nat) => (Pure.pure (x + 1) : GoM Nat)), 5) : GoM _)) (.success 2) 1
     = Pure.pure (.success 3, 5) := by
   simp [apTry_success (ns := 5) (f := fun (x : Nat) => (Pure.pure (x + 1) : GoM Nat))]
+
+/-- a function side that LOGS, moves the state and succeeds: the general form applies — "k" first, then the function -/
+example : StM.apTry (fun (_ : Nat) => (do emit "k"; Pure.pure (.success (fun (x : Nat) => (do emit "f"; Pure.pure (x + 1) : GoM Nat)), 5) : GoM _))
+      (.success 2) 1
+    = (emit "k" >>= fun _ => emit "f" >>= fun _ => Pure.pure (.success 3, 5)) := by
+  rw [apTry_success_eff (ns := 5) (f := fun (x : Nat) => (do emit "f"; Pure.pure (x + 1) : GoM Nat)) (act := emit "k") (h := rfl)]
+  simp
 
 end FpVerif.Spec.C17
